@@ -1,4 +1,6 @@
 import UsualProofs.C02.Strict
+import UsualProofs.C02.Escapes
+import UsualProofs.C02.Relaxed
 /-!
 # C02 — JSON parser: total, strict and value-correct on every input
 
@@ -11,7 +13,12 @@ repaired by `fixes/F03-json-subnormal.patch`), driven by the tables of
 * `Err.none` = "`json_strerror` is NULL";
 * `Reaches sd o doc st rest` — started on `doc`, the token loop of `parse_tokens` arrives at its
   head (i.e. *between* tokens, never inside a string, number or literal) in parser state `st`
-  with the bytes `rest` still ahead.
+  with the bytes `rest` still ahead;
+* `WFS s` — `s` is well-formed UTF-8 (a concatenation of rows of Unicode Table 3-7, property
+  C11's `WFString`) containing no NUL; `strs v` — all strings of a tree (values and names);
+* `StrBody b` — `b` can stand between the quotes of a string token (no unescaped `"`, no lone
+  trailing `\`); `WellEscaped p` — `p` consists of complete valid items only (bytes other than
+  `\`, one-letter escapes, `\uXXXX` of a non-zero non-surrogate, surrogate pairs).
 -/
 namespace UsualProps.C02
 open Usual.C02 Usual.C03
@@ -79,5 +86,90 @@ theorem rejects_trailing_garbage (sd : Bytes → UInt64 × Nat) (o : Opts) (doc 
 -- `1 x`: after `1` and the blank the state is S_DONE and `x` is ahead
 example : ∃ st, st.state = S_DONE ∧ Reaches strtodModel ⟨true, true⟩ [0x31,0x20,0x78] st [0x78] :=
   ⟨_, rfl, .step (.step .start rfl) rfl⟩
+
+/-- **Strict mode rejects ill-formed UTF-8 (and NUL).**  Without `JSON_PARSE_RELAXED` and without
+`JSON_PARSE_IGNORE_ENCODING`, a document that is not well-formed UTF-8 — anywhere: inside a string
+or between tokens — is rejected.  (In relaxed mode comments are skipped unexamined; for the values
+see `strings_wellformed`.) -/
+theorem rejects_bad_utf8 (sd : Bytes → UInt64 × Nat) (o : Opts) (doc : Bytes)
+    (hr : o.relaxed = false) (hi : o.ignoreEnc = false) (hbad : ¬ WFS doc) :
+    ∃ e, parse sd o doc = .error e := by
+  cases h : parse sd o doc with
+  | error e => exact ⟨e, rfl⟩
+  | ok v => exact absurd (run_ok_wfs sd o hr hi doc.length St.init doc v (Nat.le_refl _) h) hbad
+
+-- `"\xC0\x80"` (overlong NUL) is not well-formed
+example : ¬ WFS [0x22, 0xC0, 0x80, 0x22] := by
+  unfold WFS
+  rw [← UsualProofs.C11.validateString_iff]
+  decide
+
+/-- **Invalid escapes are rejected (all option sets).**  When the loop is at a string token whose
+body is `pre ++ bad`, `pre` made of valid items only and `bad` starting with `\` followed by a
+byte other than `" \ / b f n r t u`, or with `\u` not followed by four hex digits, the parse fails. -/
+theorem rejects_bad_escape (sd : Bytes → UInt64 × Nat) (o : Opts) (doc : Bytes) (st : St)
+    (pre bad rest : Bytes) (hsb : StrBody (pre ++ bad)) (hw : WellEscaped pre) (hb : BadEscape bad)
+    (h : Reaches sd o doc st (0x22 :: (pre ++ bad ++ 0x22 :: rest))) :
+    ∃ e, parse sd o doc = .error e := by
+  rw [h.parse_eq]; exact run_string_rejects sd o st hsb hw (Or.inl hb)
+
+-- `"a\x"`
+example : StrBody ([0x61] ++ [0x5C, 0x78]) ∧ WellEscaped [0x61] ∧ BadEscape [0x5C, 0x78] ∧
+    Reaches strtodModel ⟨true, true⟩ [0x22, 0x61, 0x5C, 0x78, 0x22] St.init
+      (0x22 :: ([0x61] ++ [0x5C, 0x78] ++ 0x22 :: [])) :=
+  ⟨.plain _ _ (by decide) (by decide) (.esc _ _ .nil), .plain _ _ (by decide) .nil,
+   ⟨0x78, [], rfl, by decide, Or.inl (by decide)⟩, .start⟩
+
+/-- **Unpaired surrogates are rejected (all option sets).**  Same situation, `bad` starting with
+`\uDC00`…`\uDFFF`, or with `\uD800`…`\uDBFF` not followed by `\uDC00`…`\uDFFF`. -/
+theorem rejects_lone_surrogate (sd : Bytes → UInt64 × Nat) (o : Opts) (doc : Bytes) (st : St)
+    (pre bad rest : Bytes) (hsb : StrBody (pre ++ bad)) (hw : WellEscaped pre) (hb : LoneSurrogate bad)
+    (h : Reaches sd o doc st (0x22 :: (pre ++ bad ++ 0x22 :: rest))) :
+    ∃ e, parse sd o doc = .error e := by
+  rw [h.parse_eq]; exact run_string_rejects sd o st hsb hw (Or.inr hb)
+
+-- `"\ud800x"`: a high surrogate followed by `x`
+example : LoneSurrogate [0x5C, 0x75, 0x64, 0x38, 0x30, 0x30, 0x78] :=
+  ⟨[0x64, 0x38, 0x30, 0x30, 0x78], 0xD800, rfl, rfl, Or.inr ⟨by decide, by decide, by
+    rintro ⟨r, w, h, _⟩; simp at h⟩⟩
+
+/-- **Strings of an accepted tree.**  Every string (value or object name) in a tree accepted
+without `JSON_PARSE_IGNORE_ENCODING` — strict or relaxed — is well-formed UTF-8 and contains no NUL. -/
+theorem strings_wellformed (sd : Bytes → UInt64 × Nat) (o : Opts) (doc : Bytes) (v : JVal)
+    (hi : o.ignoreEnc = false) (h : parse sd o doc = .ok v) :
+    ∀ s ∈ strs v, WFS s ∧ (0 : UInt8) ∉ s := by
+  intro s hs
+  have := parse_strings_wfs sd o doc v hi h s hs
+  exact ⟨this, WFS_no_nul this⟩
+
+-- `{"k":["\u00e9"]}` in relaxed mode: the strings of the result are `k` and `é`
+example : parse strtodModel ⟨true, false⟩
+      [0x7B,0x22,0x6B,0x22,0x3A,0x5B,0x22,0x5C,0x75,0x30,0x30,0x65,0x39,0x22,0x5D,0x7D] =
+    .ok (.dict [([0x6B], .list [.str [0xC3, 0xA9]])]) ∧
+    strs (.dict [([0x6B], .list [.str [0xC3, 0xA9]])]) = [[0x6B], [0xC3, 0xA9]] := ⟨rfl, rfl⟩
+
+/-- **Relaxed mode: comments and a trailing comma do not change the value.**  `Decor sd ie st r r'`
+says that, at the head of the token loop in state `st`, `r'` is `r` decorated with comments
+(`//…` to the end of the line or of the document, `/*…*/`) between tokens and with at most one
+trailing comma — a comma, then white space only — directly before a `]` or `}` that may close the
+container here.  If the undecorated document is accepted in strict mode, the decorated one is
+accepted with `JSON_PARSE_RELAXED` and yields the same value (same `IGNORE_ENCODING` bit on both
+sides); in particular (`Decor.same`) relaxed mode accepts every strictly accepted document
+unchanged.  (That the decorated document is *rejected* in strict mode is
+`strict_rejects_comment` / `strict_rejects_extra_comma`.) -/
+theorem relaxed_same_value (sd : Bytes → UInt64 × Nat) (ie : Bool) (doc doc' : Bytes)
+    (hd : Decor sd ie St.init doc doc') (v : JVal) (h : parse sd ⟨false, ie⟩ doc = .ok v) :
+    parse sd ⟨true, ie⟩ doc' = .ok v :=
+  decor_same_value sd ie hd v h
+
+-- `[1]` decorated as `[1/*c*/,]`
+example : Decor strtodModel false St.init [0x5B,0x31,0x5D] [0x5B,0x31,0x2F,0x2A,0x63,0x2A,0x2F,0x2C,0x5D] :=
+  .token _ _ _ _ _ _ _ rfl rfl
+    (.token _ _ _ _ _ _ _ rfl rfl
+      (.comment _ [0x2F,0x2A,0x63,0x2A,0x2F] _ [0x2C,0x5D] (.block [0x63] _ (by decide))
+        (.comma _ [] 0x5D [] [] (by intro b hb; cases hb) (Or.inr ⟨rfl, Or.inl rfl⟩) (.same _ _))))
+example : parse strtodModel ⟨false, false⟩ [0x5B,0x31,0x5D] = .ok (.list [.int 1]) ∧
+    parse strtodModel ⟨true, false⟩ [0x5B,0x31,0x2F,0x2A,0x63,0x2A,0x2F,0x2C,0x5D] = .ok (.list [.int 1]) :=
+  ⟨rfl, rfl⟩
 
 end UsualProps.C02
